@@ -345,6 +345,21 @@ theorem fstep_step (Γ : Ctx) (P : Program) (hp : Premise Γ P) (l : Loc) (σ σ
     step P (l, σ) = .ok (⟨f.index, .instr b.index j.index⟩, σ') :=
   FStep_instr_step hp hs hat hf rfl rfl hn
 
+/-- … the two `FStep`s at the end of a block (last instruction, enabled edge) are ONE step of the driver … -/
+theorem fstep_last_step (Γ : Ctx) (P : Program) (hp : Premise Γ P) (l : Loc) (σ σ' : State) (hs : StateTyped Γ σ)
+    (f : Function) (b : Block) (k : Nat) (i : Instr) (hat : AtInstr P l f b k i) (hlen : k + 1 = b.instrs.length)
+    (c'' : Config) (hf : FStep f ⟨b.index, k, σ⟩ ⟨b.index, k + 1, σ'⟩) (hf' : FStep f ⟨b.index, k + 1, σ'⟩ c'') :
+    ∃ e, e ∈ f.cfg.edgesOut b.index ∧ c'' = ⟨e.tail, 0, σ'⟩ ∧ step P (l, σ) = .ok (edgeLoc f e, σ') :=
+  FStep_last_step hp hs hat hlen hf hf' rfl rfl
+
+/-- … and the `FStep` out of an empty block is the driver's step from its `EmptyBlock` location -/
+theorem fstep_empty_step (Γ : Ctx) (P : Program) (hp : Premise Γ P) (l : Loc) (σ : State) (hs : StateTyped Γ σ)
+    (fi bi : Nat) (f : Function) (b : Block) (h1 : l.fn = some fi) (h2 : P.function fi = some f)
+    (h3 : l.pos = .empty bi) (h4 : f.block bi = some b) (hempty : b.instrs = []) (c' : Config)
+    (hf : FStep f ⟨b.index, 0, σ⟩ c') :
+    ∃ e, e ∈ f.cfg.edgesOut b.index ∧ c' = ⟨e.tail, 0, σ⟩ ∧ step P (l, σ) = .ok (edgeLoc f e, σ) :=
+  FStep_empty_step hp hs h1 h2 h3 h4 hempty hf rfl
+
 /-! ### outside the premise the model still mirrors the code: the lone guarded edge -/
 
 /-- one function, block 0 = [nop], block 1 = [nop], the only edge 0 → 1 guarded by the constant FALSE -/
